@@ -50,6 +50,10 @@ def fit_specs(draw, tier):
         distance=draw(st.sampled_from([0.001, 0.01, 0.03, 0.2, 0.5])),
         compact=draw(st.booleans()),
         dense_svecs=draw(st.booleans()),
+        # the displaced supercells phonopy hands out (rather than the dataset) drive the 'calculator'; optionally after an earlier
+        # generate_displacements call with other settings on the same object
+        forces_from=draw(st.sampled_from(["dataset", "supercells", "supercells"])),
+        regenerate=draw(st.booleans()),
     )
     return base
 
@@ -82,13 +86,27 @@ def run_fit(spec):
     n = len(scell)
     rng = rng_from(spec["key"])
     fc, nops = dense_fc(scell, rng)
+    if spec.get("regenerate"):
+        ph.generate_displacements(distance=0.07, is_plusminus=True, is_diagonal=not spec["is_diagonal"])
+        _ = ph.supercells_with_displacements  # a user looks at the first set, then decides on other settings
     ph.generate_displacements(distance=spec["distance"], is_plusminus=spec["is_plusminus"],
                               is_diagonal=spec["is_diagonal"], is_trigonal=spec.get("is_trigonal", False))
     forces = []
-    for d in ph.dataset["first_atoms"]:
-        u = np.zeros((n, 3))
-        u[d["number"]] = d["displacement"]
-        forces.append(-np.einsum("ijab,jb->ia", fc, u))
+    if spec.get("forces_from", "dataset") == "supercells":
+        # what a calculator sees: the displaced structures written by phonopy
+        cells = ph.supercells_with_displacements
+        if len(cells) != len(ph.dataset["first_atoms"]):
+            return Out(ok=False, msg="%d displaced supercells for %d displacements in the dataset" % (len(cells), len(ph.dataset["first_atoms"])))
+        Linv = np.linalg.inv(scell.cell)
+        for cdisp in cells:
+            du = (cdisp.scaled_positions - scell.scaled_positions)
+            du -= np.rint(du)
+            forces.append(-np.einsum("ijab,jb->ia", fc, du @ scell.cell))
+    else:
+        for d in ph.dataset["first_atoms"]:
+            u = np.zeros((n, 3))
+            u[d["number"]] = d["displacement"]
+            forces.append(-np.einsum("ijab,jb->ia", fc, u))
     ph.forces = forces
     try:
         ph.produce_force_constants(calculate_full_force_constants=not spec["compact"])
@@ -112,7 +130,8 @@ def run_fit(spec):
     ntrans = int(round(np.linalg.det(S))) * (n // (int(round(np.linalg.det(S))) * len(ph.primitive)) if len(ph.primitive) else 1)
     nontriv = (nops // max(1, n // len(ph.primitive)) >= 2) or nondiag or interleaved or spec["compact"] or not spec["is_symmetry"]
     classes = [spec["crystal"]["kind"], "compact" if spec["compact"] else "full", "pm:%s" % spec["is_plusminus"],
-               "nondiag" if nondiag else "diag", "trigonal:%s/diag:%s" % (spec.get("is_trigonal", False), spec["is_diagonal"]), "sym" if spec["is_symmetry"] else "nosym", "pmat:" + pm,
+               "nondiag" if nondiag else "diag", "trigonal:%s/diag:%s" % (spec.get("is_trigonal", False), spec["is_diagonal"]), "sym" if spec["is_symmetry"] else "nosym", "pmat:" + pm, "forces_from:" + spec.get("forces_from", "dataset"),
+               "regenerated" if spec.get("regenerate") else "single_generate",
                "ndisp:%d" % min(len(forces), 12)]
     if err > 1e-8:
         return Out(ok=False, classes=classes, info={"err": err},
